@@ -26,6 +26,13 @@ avoid = {
  'C19': 'factstore/simplecolumn.go readPred (filter fast path)',
  'C20': 'engine/seminaivebottomup.go makeDeltaRules',
 }
+# earlier rounds: add the mechanisms of every stored seed of that property
+for sid in sorted(os.listdir('/verif/seeded')):
+    d = f'/verif/seeded/{sid}'
+    if not os.path.isdir(d) or '-' not in sid: continue
+    base = sid.split('-')[0]
+    if os.path.exists(f'{d}/about.json'):
+        avoid[base] += '; ' + json.load(open(f'{d}/about.json'))['changed']
 props = {}
 for l in open('/verif/properties.jsonl'):
     d = json.loads(l); props[d['id']] = d
@@ -51,7 +58,7 @@ Quantified over: {d['quantifier']['text']}
 
 Your task: produce a realistic change (a plausible bug a developer could introduce, e.g. during a refactor or optimisation) to the library's NON-TEST source code that BREAKS this property, while the project still compiles and the ENTIRE existing test suite still passes. The change must need something specific to manifest — a particular interleaving, a fault at a particular point, a multi-step sequence of operations, an unusual input, a particular configuration, or two cooperating code sites that each look fine alone — NOT something that ordinary use or the existing tests would expose at once. Keep the change small (a few lines) and subtle. Do not touch files whose name contains "verif" and do not edit existing tests.
 
-An earlier exercise of this kind already changed: {avoid[pid]}. Pick a DIFFERENT mechanism, preferably in a different function or file, and a different clause of the property if it has several.
+Earlier exercises of this kind already changed: {avoid[pid]}. Pick a DIFFERENT mechanism, preferably in a different function or file, and a different clause of the property if it has several.
 
 Also write a demonstration: a new Go test file (name it seed_demo_test.go, put it in the most suitable existing package directory; use an external test package name such as `engine_test` if that avoids import cycles) that FAILS with your change and PASSES without it. Verify both directions yourself (e.g. `git diff -- <source files> > patch.diff; git checkout -- <source files>; run demo; git apply patch.diff; run demo`). The demo should be deterministic (if the property is about concurrency, make the demo as reliable as you can, e.g. by repetition or `-race`, and say how reliable it is).
 
